@@ -704,7 +704,43 @@ def sys_fwd_deep():
     return out
 
 
+# ---------------------------------------------------------------------------------------------
+# par_timeout: handler timeouts while the awaited child runs several handlers on a parallel_handlers bus (C10, C03, C15;
+# finding G7 was found here and repaired: the siblings of the interrupted handler kept running and the child never completed)
+# ---------------------------------------------------------------------------------------------
+def sys_par_timeout():
+    out = []
+    for par_b1, tmo, s1, s2, tgt, grand, nh in itertools.product([True, False], [2, 3, 6], [0, 1, 5], [1, 5, 8], ['b1', 'b2'], [False, True], [2, 3]):
+        c2 = [['s', s2]]
+        if grand:
+            c2 = [['d', 'b1', 'G'], ['a', 0]] + c2
+        scripts = {'SR': {'R': [['d', tgt, 'C'], ['a', 0], ['s', 1]]}, 'SC1': {'C': ([['s', s1]] if s1 else [])}, 'SC2': {'C': c2},
+                   'SC3': {'C': [['y'], ['s', 2]]}, 'SG': {'G': [['s', 3]]}}
+        handlers = [typed('b1', 'R', 'SR', hid='hr'), typed(tgt, 'C', 'SC1', hid='hc1'), typed(tgt, 'C', 'SC2', hid='hc2'), typed('b1', 'G', 'SG', hid='hg')]
+        if nh == 3:
+            handlers.append(typed(tgt, 'C', 'SC3', hid='hc3'))
+        d = [['d', 'b1', 'R'], ['a', 0], ['idle', 'b1', 3000], ['idle', 'b2', 3000]]
+        buses = [bus('b1', parallel=bool(par_b1 or tgt == 'b1')), bus('b2', parallel=True)]
+        out.append(scn(buses, handlers, scripts, [d], events={'R': {'timeout': tmo}}, horizon=12000, tag='par_timeout'))
+    return out
+
+
+def gen_timeout_par(seed):
+    rng = random.Random(seed)
+    s = gen_nest(seed * 11 + 5, errors=rng.random() < 0.3, parallel_p=0.7)
+    for ty in rng.sample(['R1', 'R2', 'C1', 'C2', 'G1'], rng.randint(1, 2)):
+        s['events'][ty] = {'timeout': rng.choice([1, 2, 3, 4, 6, 8])}
+    for ops in s['drivers']:
+        for op in ops:
+            if op[0] == 'idle':
+                op.append(2000)
+    s['tag'] = 'timeout_par_rand'
+    return s
+
+
 FAMILIES = {
+    'par_timeout': ('sys', sys_par_timeout),
+    'timeout_par_rand': ('rand', gen_timeout_par),
     'fwd_deep': ('sys', sys_fwd_deep),
     'deep_timeout': ('sys', sys_deep_timeout),
     'wal': ('rand', gen_wal),
